@@ -66,15 +66,22 @@ fn dup(items: &Vec<String>) {
     }
 }
 '''
-TEXT = {"py": PY, "ts": TS, "rs": RS}
-EXT = {"py": ".py", "ts": ".ts", "rs": ".rs"}
-COQ_LANG = {"py": "LPy", "ts": "LTs", "rs": "LRs", "cfg": "LOther"}
+# a Python file whose only finding is the cross-file stringly-typed one (the same membership test in >= 2 analysed files)
+PYST = '''def check_status(status):
+    if status in ("active", "pending", "closed"):
+        return True
+    return False
+'''
+TEXT = {"py": PY, "ts": TS, "rs": RS, "pyst": PYST}
+EXT = {"py": ".py", "ts": ".ts", "rs": ".rs", "pyst": ".py"}
+COQ_LANG = {"py": "LPy", "ts": "LTs", "rs": "LRs", "cfg": "LOther", "pyst": "LPy"}
 # lines at which each command reports a violation in a template when no path filter applies (a content oracle:
 # validated on every run by the cases in neutral locations)
 RAW = {
     "py": {"magic-numbers": [16], "print-statements": [15], "nesting": [14], "srp": [1, 6], "method-property": [2],
-           "stateless-class": [6], "file-placement": [1], "dry": [1, 6, 10, 15, 18]},
-    "ts": {"magic-numbers": [3], "print-statements": [2], "file-placement": [1], "dry": [1]},
+           "stateless-class": [6], "file-placement": [1], "dry": [1, 6, 10, 15, 18], "file-header": [1]},
+    "ts": {"magic-numbers": [3], "print-statements": [2], "file-placement": [1], "dry": [1], "file-header": [1]},
+    "pyst": {"stringly-typed": [2], "file-placement": [1], "file-header": [1]},
     "rs": {"magic-numbers": [3], "unwrap-abuse": [2], "clone-abuse": [12], "blocking-async": [7], "file-placement": [1]},
     "cfg": {"file-placement": [1]},
 }
@@ -82,9 +89,10 @@ RULE_ID = {"magic-numbers": "magic-numbers.numeric-literal", "print-statements":
            "nesting": "nesting.excessive-depth", "srp": "srp.violation", "unwrap-abuse": "unwrap-abuse.unwrap-call",
            "clone-abuse": "clone-abuse.clone-in-loop", "blocking-async": "blocking-async.fs-in-async",
            "method-property": "method-property.should-be-property", "stateless-class": "stateless-class.violation",
-           "file-placement": "file-placement"}
+           "file-placement": "file-placement", "file-header": "file-header.validation"}
 CMDS = list(RULE_ID)           # the per-file commands drawn at random
 RULE_ID["dry"] = "dry.duplicate-code"   # cross-file: run on dedicated projects (gen_dry) whose duplicate partners are known
+RULE_ID["stringly-typed"] = "stringly-typed.repeated-validation"   # cross-file: dedicated projects (gen_st_project)
 DRY_CFG = {"enabled": True, "min_duplicate_lines": 3, "cache_enabled": False}
 BASE_CFG = {"nesting": {"max_nesting_depth": 2}, "srp": {"max_methods": 1}}
 
@@ -94,7 +102,7 @@ SPECIAL_DIRS = ["tests", "test", "examples", "benches", "build", "dist", "venv",
 STEMS = {"py": ["mod", "util", "test_mod", "mod_test", "helper", "conftest"],
          "ts": ["mod", "util", "a.test", "a.spec", "test_util", "util_test"],
          "rs": ["lib", "main", "util", "test_x"]}
-LINTER_PATS = ["lib/", "tests/", "src/", "test", "mod", "*_test.py", "**/mod.py", "*/mod.*", "/src/", "core/util.py", "app/*/*.py", "*.ts",
+LINTER_PATS = ["**/lib/**", "**/mod.py", "**/tests/**", "lib/", "tests/", "src/", "test", "mod", "*_test.py", "**/mod.py", "*/mod.*", "/src/", "core/util.py", "app/*/*.py", "*.ts",
                "proj/", "ok/", "*/*/*/*.py", "util"]
 REPO_PATS = ["lib/", "tests/", "src/*", "*.ts", "*/util.py", "lib/*.py", "**/mod.py", "mod.py", "*mod.py", "src/", "core/", "ok/", "proj/*",
              "*/src/*", "app*"]
@@ -251,6 +259,7 @@ def gen_matrix(seed: int, n_projects: int) -> list[dict]:
             if lang not in have:
                 project["files"].append({"rel": [r.choice(NEUTRAL_DIRS), "extra_" + lang + EXT[lang]], "tpl": lang})
         dry_project = gen_dry_project(r)
+        st_project = gen_st_project(r)
         names = [r.choice(NEUTRAL_PARENTS)] + specials
         for li, nm in enumerate(names):
             invs = []
@@ -290,6 +299,14 @@ def gen_matrix(seed: int, n_projects: int) -> list[dict]:
                     dv["pick"] = list(range(len(dry_project["files"])))
             groups.append({"id": f"d{i}.{li}", "via": "api", "pool": True, "project": dry_project, "loc": {"parents": parents, "name": "proj"},
                            "invs": dinvs})
+            scwd, ssp, stg = par_spellings[(i + li + 2) % len(par_spellings)]
+            sinvs = [{"cwd": "home", "spelling": "abs", "target": "dir", "cmd": "stringly-typed"},
+                     {"cwd": scwd, "spelling": ssp, "target": stg, "cmd": "stringly-typed", **({"parallel": 2} if (i + li) % 3 == 0 else {})}]
+            for sv in sinvs:
+                if sv["target"] == "files":
+                    sv["pick"] = list(range(len(st_project["files"])))
+            groups.append({"id": f"s{i}.{li}", "via": "api", "pool": True, "project": st_project, "loc": {"parents": parents, "name": "proj"},
+                           "invs": sinvs})
     return groups
 
 
@@ -318,20 +335,49 @@ def gen_dry_project(r, n_min: int = 6) -> dict:
     return project
 
 
+ST_PATS = ["lib/", "**/lib/**", "src/*", "*/util*", "mod", "tests/", "*helper.py", "**/src/**", "ok/", "**/proj/**"]
+
+
+def gen_st_project(r, n_min: int = 5) -> dict:
+    """a project for the cross-file stringly-typed rule: the same membership test in several Python files placed in neutral, test-like
+    and default-ignored directories / file names; optional configured ignore list (merged with the defaults by the linter)"""
+    base = gen_project(r)
+    cfg = json.loads(base["extra"][".thailint.yaml"])
+    lint_ign = {}
+    if r.random() < 0.5:
+        lint_ign["stringly-typed"] = r.sample(ST_PATS, r.choice([1, 2]))
+        cfg["stringly-typed"] = {"ignore": lint_ign["stringly-typed"]}
+    files, seen = [], set()
+    while len(files) < n_min:
+        tpl = "pyst" if len(files) < max(4, n_min - 2) else r.choice(["pyst", "ts", "rs"])
+        dirs = [r.choice(NEUTRAL_DIRS + ["tests", "test", "fixtures", "my_tests", "build", "examples"]) for _ in range(r.choice([0, 1, 1, 2]))]
+        stem = r.choice(["mod", "util", "conftest", "mod_test", "helper", "check", "a.test"]) if tpl == "pyst" else r.choice(STEMS[tpl])
+        rel = dirs + [stem + (str(len(files)) if r.random() < 0.5 and stem != "conftest" else "") + EXT[tpl]]
+        if tuple(rel) in seen or any(tuple(rel[:k]) in seen for k in range(1, len(rel))) or any(x[:len(rel)] == tuple(rel) for x in seen):
+            continue
+        seen.add(tuple(rel))
+        files.append({"rel": rel, "tpl": tpl})
+    base["extra"][".thailint.yaml"] = json.dumps(cfg, indent=1)
+    return {"files": files, "extra": base["extra"], "lint_ign": lint_ign, "root_pats": base["root_pats"], "marker": base["marker"]}
+
+
 def gen_dry_cli(seed: int, n_projects: int) -> list[dict]:
     """real CLI `dry`, sequential and --parallel (>= 2 x default workers files), under excluded-name and marker-named parents"""
     specials = special_parents()
     from translator import items_pathloc
     excl = [("pkg.egg-info" if "*" in d else d) for d in items_pathloc.tables_for_harness()["excluded_dirs"] if d != ".git"]
     groups = []
-    for i in range(n_projects):
-        r = rng_for(seed, PROP, "dry", i)
-        project = gen_dry_project(r, n_min=17)
+    for i in range(2 * n_projects):
+        cmd = "dry" if i % 2 == 0 else "stringly-typed"
+        r = rng_for(seed, PROP, cmd, i)
+        project = gen_dry_project(r, n_min=17) if cmd == "dry" else gen_st_project(r, n_min=17)
         for li, nm in enumerate([r.choice(excl), r.choice(specials + NEUTRAL_PARENTS)]):
             invs = []
             for k, (cwd, spelling, target) in enumerate(r.sample([("home", "abs", "dir"), ("proj", "dot", "dir"), ("grand", "rel", "dir"),
                                                                   ("other", "abs", "dir")], 2)):
-                inv = {"cwd": cwd, "spelling": spelling, "target": target, "cmd": "dry"}
+                inv = {"cwd": cwd, "spelling": spelling, "target": target, "cmd": cmd}
+                if cwd == "other":
+                    inv["cwd_pats"] = r.sample(CWD_PATS, r.choice([0, 1]))
                 if k == 0 or r.random() < 0.5:
                     inv["parallel"] = True
                 invs.append(inv)
